@@ -552,6 +552,15 @@ def check_key_function(ctx, f, call, keyf, bound, roles):
 # ---------------------------------------------------------------------------------------------
 
 
+def _defs_of(f, names):
+    """definitions (expressions) of the single-assignment local names among `names`, transitively one level"""
+    out = []
+    for st in walk_stmts(f.node.body):
+        if isinstance(st, ast.Assign) and len(st.targets) == 1 and isinstance(st.targets[0], ast.Name) and st.targets[0].id in names:
+            out.append(st.value)
+    return out
+
+
 def check_sorted_is_written(ctx, f, call):
     recv = norm(call.func.value) if isinstance(call.func, ast.Attribute) and call.func.attr == "sort" else None
     if recv is None:
@@ -575,6 +584,33 @@ def check_sorted_is_written(ctx, f, call):
     ctx.check(not reorder, "R08.3", f.where(call), "no other reordering / de-duplication of the alignment list", key_of(f, "reorder:" + ";".join(norm(r) for r in reorder)), found=[norm(r) for r in reorder])
     rev = [k for k in call.keywords if k.arg == "reverse" and const_value(k.value) is not False]
     ctx.check(not rev, "R08.3", f.where(call), "ascending sort (no reverse=)", key_of(f, call))
+    # the sort is not bypassed: every guard on the way to it is about the size of the list only, or asks the comparator
+    # itself whether the list is in order already
+    from .c09 import guards_of
+
+    stmt = None
+    for st in walk_stmts(f.node.body):
+        if not isinstance(st, (ast.If, ast.For, ast.While, ast.With, ast.Try)) and any(x is call for x in ast.walk(st)):
+            stmt = st
+    if stmt is None:
+        raise AnalysisError("R08.3", f.where(call), "cannot find the statement of the sort call")
+    cmp_name = None
+    key = next((k.value for k in call.keywords if k.arg == "key"), None)
+    if isinstance(key, ast.Call) and norm(key.func).endswith("cmp_to_key") and key.args:
+        cmp_name = norm(key.args[0])
+    params = set(f.params)
+    for t, pol in guards_of(f.node, stmt):
+        txt = norm(t)
+        names = {x.id for x in ast.walk(t) if isinstance(x, ast.Name)}
+        size_only = txt in (recv, f"len({recv})", f"len({recv}) > 1", f"len({recv}) >= 2", f"len({recv}) > 0", f"len({recv}) != 0") and pol
+        if size_only:
+            continue
+        if recv is not None and recv not in names and not any(recv in norm(d) for d in _defs_of(f, names)):
+            continue  # not about the list (an option of the command, the handle): other rules decide those
+        asks_cmp = cmp_name is not None and any(isinstance(x, ast.Call) and norm(x.func) == cmp_name for x in ast.walk(t)) or any(cmp_name is not None and cmp_name in norm(d) for d in _defs_of(f, names))
+        if asks_cmp:
+            raise AnalysisError("R08.3", f.where(stmt), f"the sort is guarded by `{txt[:70]}`, which consults the comparator: whether it bypasses the sort only for lists already in order is not decided")
+        ctx.violated("R08.3", f.where(stmt), f"the sort is bypassed when `{'not ' if pol else ''}{txt[:90]}`: a test on the content of the list that is not the comparator's order decides whether the records are sorted, so two input orders of the same records (one that passes the test, one that does not) give different outputs (the comparator puts records without BO last, a plain tuple order puts BO = -1 first)", key_of(f, f"sort-bypassed:{txt[:60]}"))
 
 
 # ---------------------------------------------------------------------------------------------
